@@ -1,5 +1,18 @@
+mod binfmt;
+mod fonts;
+mod gfx;
+mod icy;
+mod layers;
+mod load;
+mod opt;
+mod sauce;
+mod sixel;
 mod small;
+mod term;
+mod textfmt;
+mod undo;
 mod util;
+mod xbin;
 
 fn main() {
     let argv: Vec<String> = std::env::args().collect();
@@ -9,9 +22,23 @@ fn main() {
     }
     let a = util::Args::parse(&argv[2..]);
     match argv[1].as_str() {
+        "term" => term::term(&a),
+        "c02" => load::c02(&a),
+        "c04" => textfmt::c04(&a),
+        "c05" => binfmt::c05(&a),
+        "c06" => xbin::c06(&a),
+        "c07" => icy::c07(&a),
+        "c08" => undo::c08(&a),
+        "c11" => sauce::c11(&a),
+        "c12" => opt::c12(&a),
+        "c13" => layers::c13(&a),
+        "c14" => sixel::c14(&a),
+        "c15" => textfmt::c15(&a),
         "c16" => small::c16(&a),
+        "c17" => fonts::c17(&a),
         "c18" => small::c18(&a),
         "c19" => small::c19(&a),
+        "c20" => gfx::c20(&a),
         other => {
             eprintln!("unknown driver {other}");
             std::process::exit(2);
